@@ -34,6 +34,9 @@ var corpus = []string{
 	`(?i)[a-z]+\d`, `(?i)error.*`, `(?i).*error`, `(?i)\berror\b`, `(?i)abc|abd`, `(?is)a.*b`, `(?U)a+`, `(?U)a+?`, `(?U)(a|ab)`,
 	`\x00+`, `[\x00-\x1f]+`, `[\x80-\xff]+`, `\xff`, `[^\x00-\x7f]`,
 	`(a|ab)`, `(a|ab)+c`, `(cat|catalog)s?`, `\w+?|\w+\d`, `(a*)(a|aa)`, `(foo|foobar)(bar)?`, `x(a|ab|abc)*y?`,
+	// anchored patterns with optional / alternative capture groups (one-pass DFA capture path)
+	`^(x)?(y)?z$`, `^([a-z]+)(?:=(\d+))?;`, `^(\d+)(?:\.(\d+))?$`, `^(GET|POST) (/\S*)(?: (HTTP/\d))?$`, `^(?:(a)|(b))c`, `^(\w+)(?:-(\w+))?(?:\.(\w+))?$`,
+	`^([+-])?(\d+)$`, `^(foo)(bar)?(baz)?`, `^(\w)(\w)?(\w)?$`,
 }
 
 // longAlternation builds an alternation of n distinct words (Aho-Corasick range).
